@@ -159,6 +159,9 @@ def run_ctor(case, rec):
             kw = {}
             if gen != "ode" and dim in (1, 2):
                 kw.update(nb=4 * max(1, n // 4 or 1), bb=1)
+            if gen == "nonstatio":
+                # as many, fewer and more time points than space points
+                kw["nt"] = [n, max(1, n - 1 - n % 3), n + 2 + n % 3][n % 3]
             d = _gen_desc(case, gen, dim, n, key, **kw)
             sigp = "%s/%s%s" % (method, gen, ("/dim%d" % dim) if gen != "ode" else "")
             try:
